@@ -3,6 +3,7 @@ package c04
 import (
 	"encoding/json"
 	"fmt"
+	"net"
 	"os"
 	"sort"
 	"strings"
@@ -47,6 +48,9 @@ func (prop) Plan(tier string, seed int64) []core.Batch {
 			plan = append(plan, core.Batch{Name: p.Name, N: seqs, Params: pp, Timeout: 1500})
 		}
 	}
+	// the datagram protocols once more through the real socket listener on loopback, back-to-back bursts
+	pp, _ := json.Marshal(params{Proto: -1, Seqs: seqs * 10})
+	plan = append(plan, core.Batch{Name: "udp-socket", N: 1, Params: pp, Timeout: 1500})
 	return plan
 }
 
@@ -249,9 +253,125 @@ func runTCP(srv *lab.Server, p proto, chunks [][]byte, d delivery, ip string, po
 	return p.Extract(collect()), long
 }
 
+// childUDPSocket: every datagram protocol behind the real socket listener; bursts of datagrams sent
+// back-to-back from sockets of their own, so that a datagram arrives while the previous one is still
+// being handed over. Each datagram must be reported on its own, with its own contents.
+func childUDPSocket(b core.Batch, pp params, o *core.Obs) {
+	type up struct {
+		p    proto
+		port int
+	}
+	var ups []up
+	cfg := "[listener]\ntype=\"socket\"\n[channel.cap0]\ntype=\"lab-capture\"\nid=\"cap0\"\n[[filter]]\nchannel=[\"cap0\"]\n"
+	for _, p := range protos {
+		if p.Net != "udp" {
+			continue
+		}
+		l, err := net.ListenUDP("udp", &net.UDPAddr{IP: net.ParseIP("127.0.0.1")})
+		if err != nil {
+			continue
+		}
+		port := l.LocalAddr().(*net.UDPAddr).Port
+		l.Close()
+		name := strings.ReplaceAll(p.Name, "-", "")
+		cfg += fmt.Sprintf("[service.%s]\ntype=%q\n[[port]]\nport=\"udp/127.0.0.1:%d\"\nservices=[%q]\n", name, p.Type, port, name)
+		ups = append(ups, up{p, port})
+	}
+	if _, err := lab.StartWith(cfg, false); err != nil {
+		o.Emit(core.Rec{T: "starterr", S: err.Error()})
+		return
+	}
+	time.Sleep(300 * time.Millisecond)
+	o.Begin(0)
+	for ui, u := range ups {
+		ob := scnObs{Proto: u.p.Name + "/socket", Classes: map[string]int{}, Examples: map[string]mismatch{}}
+		variants := map[string]bool{}
+		for k := 0; k < pp.Seqs; k++ {
+			r := core.NewRng(b.Seed, "C04/sock/"+u.p.Name, k)
+			chunks, expect := u.p.Gen(r)
+			per := perChunk(u.p, r, k, b.Seed)
+			_ = per
+			// regenerate the split with this generator call (perChunk re-derives from another stream): split here
+			split := make([][]string, len(chunks))
+			j := 0
+			for i := range chunks {
+				n := 1
+				if j+1 < len(expect) && strings.HasPrefix(expect[j+1], "store:") {
+					n = 2
+				}
+				for ; n > 0 && j < len(expect); n-- {
+					split[i] = append(split[i], expect[j])
+					j++
+				}
+			}
+			ev0 := lab.Events.Len()
+			var socks []*net.UDPConn
+			ports := make([]int, len(chunks))
+			for i := range chunks {
+				c, err := net.DialUDP("udp", &net.UDPAddr{IP: net.ParseIP(fmt.Sprintf("127.0.%d.%d", 1+ui, 1+k%250))}, &net.UDPAddr{IP: net.ParseIP("127.0.0.1"), Port: u.port})
+				if err != nil {
+					continue
+				}
+				socks = append(socks, c)
+				ports[i] = c.LocalAddr().(*net.UDPAddr).Port
+			}
+			if len(socks) != len(chunks) {
+				for _, c := range socks {
+					c.Close()
+				}
+				continue
+			}
+			ip := socks[0].LocalAddr().(*net.UDPAddr).IP.String()
+			for i, dg := range chunks { // back to back
+				socks[i].Write(dg)
+			}
+			lab.Events.WaitFor(ev0, func(evs []lab.Captured) bool { return len(u.p.Extract(udpFilter(evs, ip, 0))) >= len(expect) }, 2*time.Second)
+			lab.Events.Settle(2*time.Millisecond, 12*time.Millisecond)
+			all := lab.Events.Since(ev0)
+			var got []string
+			for i := range chunks {
+				got = append(got, u.p.Extract(udpFilter(all, ip, ports[i]))...)
+			}
+			for _, c := range socks {
+				c.Close()
+			}
+			ob.Deliveries++
+			if len(got) > 0 {
+				ob.WithEvents++
+			}
+			variants[strings.Join(got, "\x00")] = true
+			if !eq(got, expect) {
+				cls := "socket-burst|" + classify(got, expect)
+				ob.Classes[cls]++
+				if _, ok := ob.Examples[cls]; !ok {
+					ob.Examples[cls] = mismatch{D: delivery{Mode: "socket-burst", Kind: "whole"}, Got: got, Class: cls, Confirmed: true}
+					ob.Expect = expect
+				}
+			}
+			if ob.Head == "" && len(chunks) > 0 {
+				h := chunks[0]
+				if len(h) > 40 {
+					h = h[:40]
+				}
+				ob.Head = string(h)
+				if ob.Expect == nil {
+					ob.Expect = expect
+				}
+			}
+		}
+		ob.Variants = len(variants)
+		o.EmitX("scn", ob)
+	}
+	o.End(0)
+}
+
 func (prop) Child(b core.Batch, o *core.Obs) {
 	var pp params
 	b.P(&pp)
+	if pp.Proto < 0 {
+		childUDPSocket(b, pp, o)
+		return
+	}
 	p := protos[pp.Proto]
 	work := lab.WorkDir()
 	os.MkdirAll(work+"/ftproot", 0755)
@@ -392,7 +512,10 @@ func udpFilter(evs []lab.Captured, ip string, port int) []core.EvRec {
 func (prop) Judge(b core.Batch, recs []core.Rec, exits []core.Exit) []core.Result {
 	var pp params
 	b.P(&pp)
-	p := protos[pp.Proto]
+	p := proto{Name: "udp-socket"}
+	if pp.Proto >= 0 {
+		p = protos[pp.Proto]
+	}
 	var out []core.Result
 	for _, r := range recs {
 		switch r.T {
@@ -404,6 +527,9 @@ func (prop) Judge(b core.Batch, recs []core.Rec, exits []core.Exit) []core.Resul
 				continue
 			}
 			res := core.Result{K: r.K, Verdict: core.Held, Witness: ob}
+			if pp.Proto < 0 {
+				p.Name = ob.Proto
+			}
 			if ob.WithEvents > 0 {
 				res.Key = fmt.Sprintf("%s|seq%d", p.Name, pp.Off+r.K)
 				res.Sample = map[string]interface{}{"protocol": p.Name, "stream_bytes": ob.StreamLen, "stream_head": ob.Head, "expected_events": ob.Expect, "deliveries": ob.Deliveries, "deliveries_with_events": ob.WithEvents, "distinct_event_lists_across_deliveries": ob.Variants}
